@@ -1,6 +1,9 @@
 # Registered checks: property -> engines and budgets per tier.
 # batches x runs = simulated cases of the plain binary; race_* = the same engine in the -race binary.
 CHECKS = {
+    "C13": dict(engines=["c13"], level="exploration",
+                quick=dict(batches=16, runs=250, timeout=900),
+                thorough=dict(batches=64, runs=1500, timeout=3000)),
     "C02": dict(engines=["c02"], level="fault_enumeration",
                 quick=dict(batches=16, runs=1500, timeout=900),
                 thorough=dict(batches=64, runs=40000, timeout=3000)),
@@ -39,6 +42,16 @@ PIPE_NOTE = ("The schedule / fault-position dimension is explored by the seeded 
              "only sampled by the workload generator. Oracle = independent Newick reader + brute-force split algebra (no gotree code). Interleavings at hook "
              "granularity; dependencies un-instrumented; go1.26.8 runtime with go1.21 GODEBUG defaults.")
 TEXTS = {
+    "C13": dict(
+        level_text="Seeded simulation of conversion chains (1..3 hops over Nexus, Nexus+translate, Tree.Nexus, PhyloXML) written by gotree's channel-fed writers and read back "
+                   "by the real multi-tree reader goroutine (under the deterministic scheduler) and by the single-tree reader from simulated chunked streams with varying "
+                   "buffer sizes, zero-length reads, blank lines, CRLF and a malformed tree at any position. Oracle: reference-model view (shape, names, lengths, supports) "
+                   "after each hop equals the source; ids 0,1,2,...; trees 0..j-1 then exactly one error record for a malformed tree at j; single reader = first record of "
+                   "the multi reader for Newick, Nexus, PhyloXML and Nextstrain. Sampling: evidence, not proof.",
+        design_ref="§4 C13",
+        level_note="The fault extension 'read error in mid-stream must not silently drop trees' of DESIGN §4 is not part of this check (the statement quantifies over well-formed inputs). "
+                   "Inner node names are kept unique within a tree. The input dimension is sampled. go1.26.8 runtime.",
+        technique="deterministic simulation: simulated chunked streams + scheduled reader goroutine over conversion chains, oracle = reference model of the source trees"),
     "C02": dict(
         level_text="Fault enumeration on simulated byte streams: for every document of a small corpus covering the five formats, truncation after EVERY byte offset x {EOF, read error} x "
                    "chunk plans x every reader entry point is executed (complete over that finite space), the multi-tree reader goroutine running under the deterministic "
